@@ -40,6 +40,11 @@ inductive Mark where
   | commit | callback
   /-- `self.store.<read>(…)`: a read of LMDB through a read transaction of its own -/
   | dbread
+  /-- a use of the sync-status object handed into the chain crate (`status: &dyn TxHashsetWriteStatus` of
+  `txhashset_write`, `status: Arc<SyncState>` of the desegmenter): a method call on it or handing it to
+  a callee.  At node level this is `SyncState::update` (chain/src/types.rs), which takes the
+  `SyncState.current` lock - resolved in `Gen/LocksNode.lean` -/
+  | status
   deriving DecidableEq, Repr
 
 /-- one event of a thread's program, generic in the lock alphabet -/
@@ -195,6 +200,7 @@ def LockEv.show : LockEv → String
   | .mark .commit => "!commit"
   | .mark .callback => "!callback"
   | .mark .dbread => "!dbread"
+  | .mark .status => "!status"
 
 def showEvs (p : List LockEv) : String := ",".intercalate (p.map LockEv.show)
 
